@@ -61,13 +61,13 @@ Print Assumptions op_levels_match_grammar.
    unparenthesised conditional; the parser runs with the matching parameter)
    are parsed by the independent ECMA-262 precedence-climbing parser back to the tree,
    up to norm (left-nesting of comma chains, which the printer prints without parentheses) *)
-Theorem print_parse_tokens : forall mw fi e, wf e ->
-  exists n, forall m, (n <= m)%nat -> parse_fuel m fi (toks (print_items mw fi LLowest e)) = Some (norm e).
+Theorem print_parse_tokens : forall mw fi ss e, wf e ->
+  exists n, forall m, (n <= m)%nat -> parse_fuel m fi (toks (print_items mw fi ss LLowest e)) = Some (norm e).
 Proof. exact parse_print_items_all. Qed.
 Print Assumptions print_parse_tokens.
 
 (* norm is invisible to the printer (so it only re-associates what is printed identically) and idempotent *)
-Theorem norm_prints_the_same : forall mw e fi P, print_items mw fi P (norm e) = print_items mw fi P e.
+Theorem norm_prints_the_same : forall mw e fi ss P, print_items mw fi ss P (norm e) = print_items mw fi ss P e.
 Proof. exact print_norm. Qed.
 Print Assumptions norm_prints_the_same.
 Theorem norm_idempotent : forall e, norm (norm e) = norm e.
@@ -76,8 +76,8 @@ Print Assumptions norm_idempotent.
 
 (* every printed well-formed tree is a grammatical chain of well-formed items, so render_lex applies:
    the text of a printed tree lexes to the tokens of its items, in both whitespace modes *)
-Theorem print_lex : forall mw fi e, wf e -> lexok e ->
-  lex (print_expr mw fi e) = Some (toks (print_items mw fi LLowest e)).
+Theorem print_lex : forall mw fi ss e, wf e -> lexok e ->
+  lex (print_expr mw fi ss e) = Some (toks (print_items mw fi ss LLowest e)).
 Proof. exact print_lex_all. Qed.
 Print Assumptions print_lex.
 
@@ -90,12 +90,21 @@ Print Assumptions parse_fuel_sufficient.
    in either whitespace mode, is read back (ECMA-262 lexer, then ECMA-262 expression parser) as the
    same tree up to norm.  [lexok] is the one lexical side condition of render_lex: the operand of a
    prefix ++/-- does not start with a number or a regular expression. *)
-Theorem print_parse_roundtrip : forall mw fi e, wf e -> lexok e -> parse_text fi (print_expr mw fi e) = Some (norm e).
+Theorem print_parse_roundtrip : forall mw fi ss e, wf e -> lexok e -> parse_text fi (print_expr mw fi ss e) = Some (norm e).
 Proof. exact print_parse_roundtrip_concrete. Qed.
 Print Assumptions print_parse_roundtrip.
 
 (* print_fixed_point: printing what was read back reproduces the text exactly, in both modes *)
-Theorem print_fixed_point : forall mw fi e e', wf e -> lexok e ->
-  parse_text fi (print_expr mw fi e) = Some e' -> forall mw' fi', print_expr mw' fi' e' = print_expr mw' fi' e.
+Theorem print_fixed_point : forall mw fi ss e e', wf e -> lexok e ->
+  parse_text fi (print_expr mw fi ss e) = Some e' -> forall mw' fi' ss', print_expr mw' fi' ss' e' = print_expr mw' fi' ss' e.
 Proof. exact print_fixed_point_concrete. Qed.
 Print Assumptions print_fixed_point.
+
+(* print_stmt_roundtrip: statement start.  ss is the printer's "p.stmtStart == len(p.js)", handed down the
+   leftmost operands as long as nothing is printed in front of them; an index access on the identifier "let"
+   in that position is printed "(let)[...]" (fix ac301ad; the witnesses of finding C13-D7 are instances).
+   The text printed for an expression statement is read back AS A STATEMENT (14.5: an ExpressionStatement
+   must not start with the two tokens "let" "[") as the same tree. *)
+Theorem print_stmt_roundtrip : forall mw e, wf e -> lexok e -> parse_stmt_text (print_expr mw false true e) = Some (norm e).
+Proof. exact print_stmt_roundtrip_all. Qed.
+Print Assumptions print_stmt_roundtrip.
